@@ -444,6 +444,12 @@ def standard_proof_phase(run, pid):
     st = prop_status(pid, thorough=run.thorough)
     st["build_ok"] = ok
     st["build_log"] = log[-2500:]
+    if not ok:
+        # the translator refused the source or a model/proof file no longer compiles against the regenerated tables:
+        # the theorems are not re-established for the current tree, whatever the previously compiled files say
+        st["ok"] = False
+        st["discharged"] = 0
+        st["log"] = "BUILD NOT CLEAN:\n" + log[-2000:] + "\n" + st["log"]
     if not st["ok"]:
         run.log("property file does not check:\n" + st["log"][-2500:])
     return st
